@@ -22,15 +22,170 @@ def call(f, *a, **k):
         return ("exc", f"{type(e).__name__}: {str(e)[:120]}")
 
 
+def stats_bad(st, want, nsamps, nch, full):
+    """names of the channel statistics that differ from the moments of the selected samples `want` (nsamps x nch)"""
+    mu = want.mean(0); var = want.var(0)
+    bad = []
+    if not np.array_equal(st.moments["count"], np.full(nch, nsamps)): bad.append("count")
+    if not np.array_equal(st.maxima, want.max(0)) or not np.array_equal(st.minima, want.min(0)): bad.append("minmax")
+    if not np.allclose(st.mean, mu, rtol=1e-5, atol=1e-5): bad.append("mean")
+    if not np.allclose(st.var, var, rtol=1e-4, atol=1e-4): bad.append("var")
+    if full and nsamps >= 3:
+        m2 = ((want - mu) ** 2).sum(0); m3 = ((want - mu) ** 3).sum(0); m4 = ((want - mu) ** 4).sum(0)
+        ok = m2 > 1e-9
+        sk = np.where(ok, np.sqrt(nsamps) * m3 / np.where(ok, m2, 1) ** 1.5, 0.0)
+        ku = np.where(ok, nsamps * m4 / np.where(ok, m2, 1) ** 2 - 3.0, -3.0)
+        if not np.allclose(st.skew, sk, rtol=1e-3, atol=1e-3): bad.append("skew")
+        if not np.allclose(np.where(ok, st.kurtosis, -3.0), ku, rtol=1e-3, atol=1e-3): bad.append("kurtosis")
+    return bad
+
+
+def norm_delays(fil, dm):
+    """the delay vector dedisperse works with: the dispersion law's delays (C09) referred to the earliest channel, so that all are >= 0.
+    Returns (raw, normalised, maxdelay); atleast_1d so that the expectation stays computable whatever shape the helper hands back"""
+    raw = np.atleast_1d(np.asarray(fil.header.get_dmdelays(dm))).astype(int)
+    dn = raw - min(0, int(raw.min()))
+    return raw, dn, int(dn.max())
+
+
+def want_dedisp(want, dn, md):
+    outlen = want.shape[0] - md
+    out = np.zeros(outlen)
+    for c in range(want.shape[1]):
+        out += want[dn[c]:dn[c] + outlen, c]
+    return out
+
+
+def distinct_dms(fil, N, grid, most):
+    """DMs of the grid giving pairwise distinct 0 < maxdelay < N (after normalisation), at most `most` of them, spread over the range"""
+    seen, dms = set(), []
+    for dm in grid:
+        md = norm_delays(fil, float(dm))[2]
+        if 0 < md < N and md not in seen:
+            seen.add(md); dms.append(float(dm))
+    if len(dms) > most:
+        dms = [dms[int(round(i * (len(dms) - 1) / (most - 1)))] for i in range(most)]
+    return dms
+
+
+def default_gulp(R, fil, x, label, dm):
+    """every reduction with `gulp` left to its default (what callers normally do), on the whole file and on a sub-range"""
+    N, nch = x.shape
+    for start, nsamps in ((0, None), (1, N - 2)):
+        if nsamps is not None and nsamps < 1:
+            continue
+        ns = N - start if nsamps is None else nsamps
+        want = x[start:start + ns].astype(np.float64)
+        kw = {"start": start, "quiet": True}
+        if nsamps is not None:
+            kw["nsamps"] = nsamps
+        base = {"nchans": nch, "N": N, "start": start, "nsamps": nsamps, "gulp": "default", "set": label}
+        R.case(("default_gulp", label, start, nsamps), nontrivial=True, regime="default_gulp")
+        k, r = call(fil.collapse, **kw)
+        if k != "ok" or r.data.shape != (ns,) or not np.array_equal(r.data, want.sum(1)):
+            R.fail("collapse-default-gulp", "collapse(gulp left to default) != sum over channels", dict(base, res=str(r)[:80]))
+        k, r = call(fil.bandpass, **kw)
+        if k != "ok" or r.data.shape != (nch,) or not np.allclose(r.data, want.mean(0), rtol=2e-6, atol=0):
+            R.fail("bandpass-default-gulp", "bandpass(gulp left to default) != mean over time", dict(base, res=str(getattr(r, "data", r))[:80]))
+        k, r = call(fil.read_chan, nch - 1, **kw)
+        if k != "ok" or r.data.shape != (ns,) or not np.array_equal(r.data, want[:, nch - 1]):
+            R.fail("read_chan-default-gulp", "read_chan(gulp left to default) != the channel's column", dict(base, res=str(r)[:80]))
+        for mode, fn in (("full", fil.compute_stats), ("basic", fil.compute_stats_basic)):
+            k, r = call(fn, **kw)
+            bad = stats_bad(fil.chan_stats, want, ns, nch, mode == "full") if k == "ok" else ["exception"]
+            if bad:
+                R.fail("stats-default-gulp", "compute_stats(gulp left to default) differs from the moments of the selected samples", dict(base, mode=mode, wrong=bad, res=str(r)[:80]))
+        raw, dn, md = norm_delays(fil, dm)
+        if md < ns:
+            k, r = call(fil.dedisperse, dm, **kw)
+            wd = want_dedisp(want, dn, md)
+            if k != "ok" or r.data.shape != (ns - md,) or not np.array_equal(r.data, wd):
+                R.fail("dedisperse-default-gulp", "dedisperse(gulp left to default) != sum_c x[t+d_c][c]", dict(base, dm=dm, delays=dn.tolist(), res=str(r)[:80]))
+
+
+def sweep(R, fil, x, nbits, label, dms, rng, splits, band):
+    """every sub-range x gulps x the five reductions on one extra file set (single channel, ascending band, DM of either sign,
+    negative sample values).  Failure keys: '<label>-<api>-<kind>'; dedisperse with negative law delays: '<label>-dedisperse-negdelay-<kind>'"""
+    N, nch = x.shape
+    for start in range(0, N):
+        for nsamps in range(1, N - start + 1):
+            want = x[start:start + nsamps].astype(np.float64)
+            gulps = list(range(1, nsamps + 3)) if R.tier != "quick" else sorted(set([1, 2, max(1, nsamps - 1), nsamps, nsamps + 2]))
+            bp0 = None
+            for gulp in gulps:
+                base = {"set": label, "nbits": nbits, "nchans": nch, "N": N, "splits": splits, "band": band, "start": start, "nsamps": nsamps, "gulp": gulp,
+                        "data": x.tolist()}
+                multi = gulp < nsamps
+                R.case((label, "collapse", nbits, start, nsamps, gulp), nontrivial=multi, regime=label)
+                k, r = call(fil.collapse, gulp=gulp, start=start, nsamps=nsamps, quiet=True)
+                if k != "ok":
+                    R.fail(f"{label}-collapse-exception", "collapse raised", dict(base, exc=r))
+                elif r.data.shape != (nsamps,) or not np.array_equal(r.data, want.sum(1)):
+                    R.fail(f"{label}-collapse-values", "collapse != sum over channels", dict(base, got=np.asarray(r.data).tolist()[:12]))
+                R.case((label, "bandpass", nbits, start, nsamps, gulp), nontrivial=multi, regime=label)
+                k, r = call(fil.bandpass, gulp=gulp, start=start, nsamps=nsamps, quiet=True)
+                if k != "ok":
+                    R.fail(f"{label}-bandpass-exception", "bandpass raised", dict(base, exc=r))
+                elif r.data.shape != (nch,) or not np.allclose(r.data, want.mean(0), rtol=2e-6, atol=0):
+                    R.fail(f"{label}-bandpass-values", "bandpass != mean over time", dict(base, got=np.asarray(r.data).tolist()))
+                elif bp0 is None:
+                    bp0 = (gulp, np.array(r.data, copy=True))
+                elif not np.array_equal(r.data, bp0[1]):
+                    R.fail(f"{label}-bandpass-gulp-dependent", "bandpass is not bit-identical for two gulps (exact sums, one division)",
+                           dict(base, other_gulp=bp0[0], got=np.asarray(r.data).tolist(), other=bp0[1].tolist()))
+                ich = int(rng.randrange(nch))
+                R.case((label, "read_chan", nbits, start, nsamps, gulp, ich), nontrivial=multi, regime=label)
+                k, r = call(fil.read_chan, ich, gulp=gulp, start=start, nsamps=nsamps, quiet=True)
+                if k != "ok":
+                    R.fail(f"{label}-read_chan-exception", "read_chan raised", dict(base, exc=r, ichan=ich))
+                elif r.data.shape != (nsamps,) or not np.array_equal(r.data, want[:, ich]):
+                    R.fail(f"{label}-read_chan-values", "read_chan != the channel's column of the selected samples", dict(base, ichan=ich, got_len=int(r.data.shape[0])))
+                for mode, fn in (("full", fil.compute_stats), ("basic", fil.compute_stats_basic)):
+                    R.case((label, "stats", mode, nbits, start, nsamps, gulp), nontrivial=multi, regime=label)
+                    k, r = call(fn, gulp=gulp, start=start, nsamps=nsamps, quiet=True)
+                    if k != "ok":
+                        R.fail(f"{label}-stats-exception", "compute_stats raised", dict(base, exc=r, mode=mode)); continue
+                    bad = stats_bad(fil.chan_stats, want, nsamps, nch, mode == "full")
+                    if bad:
+                        R.fail(f"{label}-stats-" + "+".join(bad), "channel statistics differ from the moments of the selected samples",
+                               dict(base, mode=mode, wrong=bad, min_got=np.asarray(fil.chan_stats.minima).tolist(), max_got=np.asarray(fil.chan_stats.maxima).tolist()))
+            for dm in dms:
+                raw, dn, md = norm_delays(fil, dm)
+                if md >= nsamps:
+                    continue
+                neg = "-negdelay" if int(raw.min()) < 0 else ""
+                outlen = nsamps - md
+                wantd = want_dedisp(want, dn, md)
+                gl = set([1, 2, md + 1, 2 * md, 2 * md + 1, nsamps - 1, nsamps, nsamps + 2])
+                if 2 * md + 2 < nsamps - 1:
+                    gl.add(rng.randrange(2 * md + 2, nsamps - 1))
+                for gulp in sorted(g for g in gl if g >= 1):
+                    base = {"set": label, "nbits": nbits, "nchans": nch, "N": N, "splits": splits, "band": band, "start": start, "nsamps": nsamps, "gulp": gulp,
+                            "dm": dm, "law_delays": raw.tolist(), "delays": dn.tolist(), "data": x.tolist()}
+                    R.case((label, "dedisperse", nbits, start, nsamps, gulp, dm), nontrivial=md > 0 or nch == 1, regime=label + ("_negdelay" if neg else "_dedisperse"))
+                    k, r = call(fil.dedisperse, dm, gulp=gulp, start=start, nsamps=nsamps, quiet=True)
+                    if k != "ok":
+                        R.fail(f"{label}-dedisperse{neg}-exception", "dedisperse raised", dict(base, exc=r))
+                    elif r.data.shape != (outlen,) or not np.array_equal(r.data, wantd):
+                        kind = "length" if r.data.shape != (outlen,) else "values"
+                        R.fail(f"{label}-dedisperse{neg}-{kind}", "dedisperse != sum_c x[t+d_c][c] over t < nsamps-maxdelay (delays referred to the earliest channel)",
+                               dict(base, got_len=int(r.data.shape[0]), want_len=outlen, got=np.asarray(r.data).tolist()[:12], want=wantd.tolist()[:12]))
+
+
 def run(R: vlib.Run):
     from sigpyproc.readers import FilReader
     R.rule = ("synthetic 1..2-file sets at depths 1,2,4,8,32; every sub-range (start,nsamps) of N<=Nmax samples x every gulp 1..nsamps+2 "
               "for collapse/bandpass/read_chan/compute_stats(+basic), x DMs giving several max delays (incl. 2*maxdelay>nsamps, gulp<2*maxdelay) "
-              "for dedisperse; distinct = (api, depth, split, start, nsamps, gulp, dm); non-trivial = more than one block read")
+              "for dedisperse (+ one gulp strictly between 2*maxdelay+1 and nsamps-1); bandpass bit-identical across gulps; every reduction with the default gulp; "
+              "extra sets swept the same way: one-channel files (8 and 32 bit), ascending band and DMs of either sign (law delays < 0, referred to the "
+              "earliest channel), 32-bit samples of either sign and all negative; open-ended selections (nsamps=None) from every start incl. the last sample, "
+              "both statistics modes; distinct = (api, depth, split, start, nsamps, gulp, dm); non-trivial = more than one block read")
     R.trusted += ["Coq 8.16.1 kernel + vm_compute", "tools/py2coq (kernels, read_plan arithmetic and base.py call sites regenerated each run)",
                   "hand glue 'for each yielded block call the kernel with these arguments' (Model/C06_pipe.v), tied by the correspondence run",
                   "sample values are integers (float32 sums exact, as the property stipulates)"]
-    R.assume += ["float32 accumulation is exact on the generated integer data", "read_plan delivers the blocks proved in C01 (composed theorem uses C01's plan facts)"]
+    R.assume += ["float32 accumulation is exact on the generated integer data", "read_plan delivers the blocks proved in C01 (composed theorem uses C01's plan facts)",
+                 "depths are {1,2,4,8,32} as the property states: 16-bit files are outside it (the streaming kernels have no uint16 signature and raise TypeError)",
+                 "the per-channel delays are those of Header.get_dmdelays (the dispersion law is C09's subject), referred to the earliest channel when any is negative"]
     R.prove("Props/C06.v")
     R.need(["Model/C06_pipe.vo"])
     rng = R.rng
@@ -56,6 +211,7 @@ def run(R: vlib.Run):
                     md = int(fil.header.get_dmdelays(float(dm)).max())
                     if md not in seen and md < N:
                         seen.add(md); dms.append(float(dm))
+                default_gulp(R, fil, x, f"{nbits}bit_{nf}", dms[min(2, len(dms) - 1)])
                 for start in range(0, N):
                     for nsamps in range(1, N - start + 1):
                         want = x[start:start + nsamps].astype(np.float64)
@@ -64,6 +220,7 @@ def run(R: vlib.Run):
                         gulps = list(range(1, nsamps + 3))
                         if R.tier == "quick" and nbits not in (8,):
                             gulps = sorted(set([1, 2, max(1, nsamps - 1), nsamps, nsamps + 2]))
+                        bp0 = None
                         for gulp in gulps:
                             base = {"nbits": nbits, "nchans": nch, "N": N, "splits": splits, "start": start, "nsamps": nsamps, "gulp": gulp}
                             multi = gulp < nsamps
@@ -83,6 +240,11 @@ def run(R: vlib.Run):
                                 R.fail(f"bandpass-{tag}-exception", "bandpass raised", dict(base, exc=r))
                             elif r.data.shape != (nch,) or not np.allclose(r.data, want.mean(0), rtol=2e-6, atol=0):
                                 R.fail(f"bandpass-{tag}-values", "bandpass != mean over time", dict(base, got=np.asarray(r.data).tolist()))
+                            elif bp0 is None:
+                                bp0 = (gulp, np.array(r.data, copy=True))
+                            elif not np.array_equal(r.data, bp0[1]):   # exact float32 sums and one division: changing only the gulp changes no bit
+                                R.fail(f"bandpass-{tag}-gulp-dependent", "bandpass is not bit-identical for two gulps",
+                                       dict(base, other_gulp=bp0[0], got=np.asarray(r.data).tolist(), other=bp0[1].tolist()))
                             if k == "ok" and nbits == 8:
                                 corr.append(("bandpass", x, splits, gulp, start, nsamps, 0, [], np.rint(np.asarray(r.data, dtype=np.float64) * nsamps).astype(np.int64).tolist()))
                             # read_chan
@@ -131,7 +293,12 @@ def run(R: vlib.Run):
                             wantd = np.zeros(outlen)
                             for c in range(nch):
                                 wantd += want[delays[c]:delays[c] + outlen, c]
-                            for gulp in sorted(set([1, 2, md + 1, 2 * md, 2 * md + 1, nsamps - 1, nsamps, nsamps + 2])):
+                            dgulps = set([1, 2, md + 1, 2 * md, 2 * md + 1, nsamps - 1, nsamps, nsamps + 2])
+                            if 2 * md + 2 < nsamps - 1:      # a gulp the library does not raise, several blocks advancing by more than maxdelay+1, partial last block
+                                dgulps.add(rng.randrange(2 * md + 2, nsamps - 1))
+                                if R.tier != "quick":
+                                    dgulps.add(rng.randrange(2 * md + 2, nsamps - 1))
+                            for gulp in sorted(dgulps):
                                 if gulp < 1:
                                     continue
                                 base = {"nbits": nbits, "nchans": nch, "N": N, "splits": splits, "start": start, "nsamps": nsamps, "gulp": gulp, "dm": dm,
@@ -154,7 +321,8 @@ def run(R: vlib.Run):
             paths = filutil.write_fil_set(os.path.join(d, f"o{nbits}"), x, nbits, [N // 2], fch1=400.0, foff=-20.0, tsamp=0.001)
             fil = FilReader(paths)
             dm1 = next((float(v) for v in np.linspace(0.02, 1.2, 40) if 0 < int(fil.header.get_dmdelays(float(v)).max()) < 3), 0.0)
-            for start in range(0, N - 1):
+            dm2 = next((float(v) for v in np.linspace(0.02, 1.2, 40) if 3 <= int(fil.header.get_dmdelays(float(v)).max()) < N - 1), None)
+            for start in range(0, N):
                 want = x[start:].astype(np.float64); ns = N - start
                 for gulp in sorted(set([1, 2, max(1, ns - 1), ns + 2])):
                     base = {"nbits": nbits, "nchans": nch, "N": N, "start": start, "nsamps": None, "gulp": gulp}
@@ -163,7 +331,7 @@ def run(R: vlib.Run):
                     if k != "ok" or r.data.shape != (ns,) or not np.array_equal(r.data, want.sum(1)):
                         R.fail("collapse-open-ended", "collapse(start>0, nsamps=None) != sum over channels of samples [start, N)", dict(base, res=str(r)[:80]))
                     k, r = call(fil.bandpass, gulp=gulp, start=start, quiet=True)
-                    if k != "ok" or not np.allclose(r.data, want.mean(0), rtol=2e-6, atol=0):
+                    if k != "ok" or r.data.shape != (nch,) or not np.allclose(r.data, want.mean(0), rtol=2e-6, atol=0):
                         R.fail("bandpass-open-ended", "bandpass(start>0, nsamps=None) != mean over time of samples [start, N)", dict(base, res=str(getattr(r, "data", r))[:80], want=want.mean(0).tolist()))
                     k, r = call(fil.read_chan, 1 % nch, gulp=gulp, start=start, quiet=True)
                     if k != "ok" or r.data.shape != (ns,) or not np.array_equal(r.data, want[:, 1 % nch]):
@@ -171,12 +339,47 @@ def run(R: vlib.Run):
                     k, r = call(fil.compute_stats, gulp=gulp, start=start, quiet=True)
                     if k != "ok" or not np.allclose(fil.chan_stats.var, want.var(0), rtol=1e-4, atol=1e-4) or not np.array_equal(fil.chan_stats.moments["count"], np.full(nch, ns)):
                         R.fail("stats-open-ended", "compute_stats(start>0, nsamps=None) differs from the moments of samples [start, N)", dict(base, res=str(r)[:80]))
+                    for mode, fn in (("full", fil.compute_stats), ("basic", fil.compute_stats_basic)):
+                        k, r = call(fn, gulp=gulp, start=start, quiet=True)
+                        bad = stats_bad(fil.chan_stats, want, ns, nch, mode == "full") if k == "ok" else ["exception"]
+                        if bad:
+                            R.fail("stats-open-ended", "compute_stats(_basic)(start, nsamps=None) differs from the moments of samples [start, N)",
+                                   dict(base, mode=mode, wrong=bad, res=str(r)[:80]))
+                    if dm2 is not None:
+                        delays2 = fil.header.get_dmdelays(dm2).astype(int); md2 = int(delays2.max())
+                        if md2 < ns:
+                            k, r = call(fil.dedisperse, dm2, gulp=gulp, start=start, quiet=True)
+                            wd2 = sum(want[delays2[c]:delays2[c] + ns - md2, c] for c in range(nch))
+                            if k != "ok" or r.data.shape != (ns - md2,) or not np.array_equal(r.data, wd2):
+                                R.fail("dedisperse-open-ended", "dedisperse(start>0, nsamps=None) != sum_c x[t+d_c][c] over samples [start, N)", dict(base, dm=dm2, res=str(r)[:80]))
                     delays = fil.header.get_dmdelays(dm1).astype(int); md = int(delays.max())
                     if md < ns:
                         k, r = call(fil.dedisperse, dm1, gulp=gulp, start=start, quiet=True)
                         wd = sum(want[delays[c]:delays[c] + ns - md, c] for c in range(nch))
                         if k != "ok" or r.data.shape != (ns - md,) or not np.array_equal(r.data, wd):
                             R.fail("dedisperse-open-ended", "dedisperse(start>0, nsamps=None) != sum_c x[t+d_c][c] over samples [start, N)", dict(base, dm=dm1, res=str(r)[:80]))
+        # ---- extra sets: one channel, ascending band / DM of either sign, 32-bit samples of either sign ----------------
+        Ns = 6 if R.tier == "quick" else 9
+        grid = np.linspace(0.02, 1.2, 40)
+        DESC, ASC = (400.0, -20.0), (260.0, 20.0)
+        extra = [  # label, nbits, nch, files, (lo, hi) of the sample values, band, signs of the DMs
+            ("nch1", 8, 1, 2, (0, 256), DESC, (1,)),
+            ("nch1", 32, 1, 1, (-128, 128), ASC, (1, -1)),
+            ("ascband", 8, 4, 3, (0, 256), ASC, (1, -1)),
+            ("neg32", 32, 3, 2, (-128, 128), DESC, (1, -1)),
+            ("neg32", 32, 2, 1, (-200, 0), DESC, (1,)),
+        ]
+        for label, nbits, nch, nf, (lo, hi), band, signs in extra:
+            x = nprng.integers(lo, hi, (Ns, nch))
+            splits = sorted(set(int(v) for v in nprng.choice(np.arange(1, Ns), nf - 1, replace=False))) if nf > 1 else []
+            paths = filutil.write_fil_set(os.path.join(d, f"e{label}{nbits}_{nch}"), x, nbits, splits, fch1=band[0], foff=band[1], tsamp=0.001, vary_header=(nf == 3))
+            fil = FilReader(paths)
+            if nch == 1:
+                dms = [0.0] + [0.5 * s for s in signs]        # one channel: the delay vector is [0] for every DM
+            else:
+                dms = [0.0] + [dm for s in signs for dm in distinct_dms(fil, Ns, s * grid, 3 if R.tier == "quick" else 6)]
+            default_gulp(R, fil, x, f"{label}{nbits}", dms[-1])
+            sweep(R, fil, x, nbits, label, dms, rng, splits, band)
         # ---- correspondence --------------------------------------------------------------------
         rng.shuffle(corr)
         corr = corr[: (600 if R.tier == "quick" else 3000)]
